@@ -8,7 +8,24 @@ structure KInv (s : St) : Prop where
   bound : ∀ u st, aget s.lookup u = some st → st.converted < s.heap.length
   fill : ∀ u st, aget s.lookup u = some st → st.complete = true → (s.node st.converted).kw.filled = true
 
-def DInv (s : St) : Prop := ∀ u d, aget s.diagrams u = some d → d.content.isRef = true
+def DInv (s : St) : Prop := ∀ p ∈ s.diagrams, p.2.content.isRef = true
+
+theorem mem_aset {α} (l : List (Nat × α)) (k : Nat) (v : α) (p : Nat × α) (h : p ∈ aset l k v) :
+    p ∈ l ∨ p = (k, v) := by
+  induction l with
+  | nil => simp only [aset, List.mem_singleton] at h; exact Or.inr h
+  | cons q rest ih =>
+    obtain ⟨k', v'⟩ := q
+    unfold aset at h
+    split at h
+    · rcases List.mem_cons.mp h with h | h
+      · exact Or.inr h
+      · exact Or.inl (List.mem_cons_of_mem _ h)
+    · rcases List.mem_cons.mp h with h | h
+      · exact Or.inl (h ▸ List.mem_cons_self ..)
+      · rcases ih h with h | h
+        · exact Or.inl (List.mem_cons_of_mem _ h)
+        · exact Or.inr h
 
 /-- entries that point below `n` are old entries (same partial, not completed in between) -/
 def Fr (n : Nat) (s s' : St) : Prop :=
@@ -117,13 +134,10 @@ theorem exFin_KD (s1 : St) (el : Nat) (pos : EState) (c : Slot) (hk : KInv s1) (
     · subst hu'; simp [exFin, aget_adel_same] at hu
     · simp only [exFin, aget_adel_ne _ _ _ hu'] at hu
       exact hk.fill u st hu hcc
-  · intro u d hu
-    by_cases hu' : u = el
-    · subst hu'
-      simp only [exFin, aget_aset_same, Option.some.injEq] at hu
-      subst hu; exact hc
-    · simp only [exFin, aget_aset_ne _ _ _ _ hu'] at hu
-      exact hd u d hu
+  · intro p hp
+    rcases mem_aset _ _ _ p hp with h | h
+    · exact hd p h
+    · rw [h]; exact hc
   · intro n u st hu _
     by_cases hu' : u = el
     · subst hu'; simp [exFin, aget_adel_same] at hu
